@@ -26,9 +26,6 @@ func runC01(tb ev.TB, p sim.Prog) ev.Result {
 		if !got.Equal(r.Model) {
 			tb.Fatalf("after op #%d %+v: replica %d holds %v, model says %v", info.Index, info.Op, info.Dst, world.Shorts(got.Sorted()), world.Shorts(r.Model.Sorted()))
 		}
-		if info.Op.Kind == "join" && info.Returned != asLog(r.Log) {
-			tb.Fatalf("join must return the receiver")
-		}
 		// replicas with equal model sets must agree
 		groups := map[string][]int{}
 		for i, x := range w.Reps {
@@ -57,9 +54,6 @@ func runC01(tb ev.TB, p sim.Prog) ev.Result {
 					if !world.EqualStrings(bs.Values, os.Values) {
 						tb.Fatalf("after op #%d %+v: replicas %d,%d merged the same entries (strict total order) but values differ:\n %v\n %v", info.Index, info.Op, g[0], j, world.Shorts(bs.Values), world.Shorts(os.Values))
 					}
-					if !world.EqualStrings(bs.JSON, os.JSON) || !world.EqualStrings(bs.HeadsSeq, os.HeadsSeq) {
-						tb.Fatalf("replicas %d,%d: head order differs under a strict total order", g[0], j)
-					}
 				}
 				if len(base.Model) >= 3 && w.Reg.HasFork(base.Model) && strings.Join(base.History, ",") != strings.Join(o.History, ",") {
 					nt = true
@@ -87,9 +81,6 @@ func runC01(tb ev.TB, p sim.Prog) ev.Result {
 			}
 			if d := pre.diff(post); d != "" {
 				tb.Fatalf("op #%d %s changed the log: %s", i, info.Op.Kind, d)
-			}
-			if info.Returned != asLog(w.Reps[a].Log) {
-				tb.Fatalf("%s must return the receiver", info.Op.Kind)
 			}
 		}
 		obs(tb, w, info)
